@@ -9,6 +9,7 @@ from __future__ import annotations
 
 import ast
 import importlib
+import os
 from fractions import Fraction
 
 import z3
@@ -279,10 +280,11 @@ class Ctx:
             cv = _concrete_uf(name, [norm_number(a) for a in args])
             if cv is not None:
                 return cv
-        zs = [to_real_z(a) for a in args]
+        # canonical sum-of-monomials form: polynomially equal arguments become the same term (congruence for free)
+        zs = [z3.simplify(to_real_z(a), som=True) for a in args]
         if name == "sqrt":
             a0 = z3.simplify(zs[0])
-            if z3.is_rational_value(a0) or z3.is_algebraic_value(a0):
+            if (z3.is_rational_value(a0) or z3.is_algebraic_value(a0)) and getattr(self, "algebraic_sqrt", False):
                 # exact algebraic number arithmetic of z3 (no uninterpreted function needed)
                 nonneg = z3.simplify(a0 >= 0)
                 if z3.is_true(nonneg):
@@ -305,7 +307,8 @@ class Ctx:
             c, s = self.uf("cos", 1)(zs[0]), self.uf("sin", 1)(zs[0])
             self.fact(c * c + s * s == 1)
             self.fact(z3.And(c >= -1, c <= 1, s >= -1, s <= 1))
-            self.fact(z3.Implies(zs[0] == 0, z3.And(c == 1, s == 0)))
+            if not os.environ.get("PYVC_NO_ZERO_FACT"):
+                self.fact(z3.Implies(zs[0] == 0, z3.And(c == 1, s == 0)))
         elif name == "exp":
             self.fact(t > 0)
             self.fact((zs[0] <= 0) == (t <= 1))
@@ -315,9 +318,10 @@ class Ctx:
         elif name == "arctan2":
             # r = sqrt(y^2+x^2) > 0  =>  r cos(t) = x, r sin(t) = y
             y, x = zs
-            rr = self.uf("sqrt", 1)(y * y + x * x)
+            r2 = z3.simplify(y * y + x * x, som=True)
+            rr = self.uf("sqrt", 1)(r2)
             self.fact(rr >= 0)
-            self.fact(rr * rr == y * y + x * x)
+            self.fact(rr * rr == r2)
             c, s = self.uf("cos", 1)(t), self.uf("sin", 1)(t)
             self.fact(c * c + s * s == 1)
             self.fact(rr * c == x)
@@ -436,6 +440,7 @@ class Interp:
         from . import values as _values
 
         _values.CURRENT_CTX[0] = ctx
+        ctx.algebraic_sqrt = bool(self.options.get("algebraic_sqrt"))  # exact algebraic numbers only where a spec asks for them
         self.called = set()  # (relpath, qualname) of abTEM functions entered (inlined)
         self.used_contracts = set()
 
